@@ -347,7 +347,9 @@ class Add(Op):
         s = distinct(rng, 4)
         rank = rng.choice([1, 2, 3, 4])
         full = s[:rank]
-        mode = rng.choice(["same", "same", "bcast", "bcast", "missing", "single", "pyscalar"])
+        mode = rng.choice(["same", "same", "bcast", "bcast", "missing", "missing_bcast", "missing_bcast", "single", "pyscalar"])
+        if mode == "missing_bcast" and rank < 3:
+            rank, full = 3, s[:3]
 
         def knock(shape):
             out = list(shape)
@@ -375,6 +377,16 @@ class Add(Op):
                 a = a[cut:] if len(a) > cut else [1]
             else:
                 b = b[cut:] if len(b) > cut else [1]
+        elif mode == "missing_bcast":
+            # one operand has FEWER dims than the result and ALSO a size-1 dim that is expanded: (1, D) + (B, S, D), (S, 1) + (B, S, D)
+            cut = rng.randint(1, len(full) - 2) if len(full) > 2 else 1
+            small = list(full[cut:])
+            idx = rng.randrange(len(small))
+            small[idx] = 1
+            if rng.random() < 0.5:
+                a = small
+            else:
+                b = small
         elif mode == "single":
             if rng.random() < 0.5:
                 a = [1] * rng.randint(0, 2)
